@@ -30,6 +30,7 @@ inductive Op where
   | add (bytes : Bytes) (n : Int)
   | off (h : Int)
   | reset
+  | resetAll      -- sequencer stream: `SlotSequencer.Reset()` with whatever is parked, and `DiscardAll()` on the buffer
   deriving Repr, DecidableEq
 
 /-- What the calls of one workflow operation returned / made observable.
@@ -145,6 +146,8 @@ def step (s : S) : Op → Obs → Option S
   | .off h, .skip => if (s.parked.lookup h).isNone then some s else none
   | .reset, .unit => if s.parked = [] then some { s with gone := 0 } else none
   | .reset, .skip => if s.parked = [] then none else some s
+  -- nothing is parked any more (and nothing of it is left in the save area); what was only readable stays readable
+  | .resetAll, .unit => some { s with parked := [], gone := 0 }
   | _, _ => none
 
 /-- Run the monitor over a trace. -/
